@@ -167,7 +167,7 @@ def valid_market(rng, nmin=2, nmax=12, dual_quotes=0.0, settle_prob=0.5):
         names = [s.upper() if rng.random() < 0.5 else s for s in names]     # lower-cased by Ccy::try_new
     edges, shape = random_tree(rng, n)
     rng.shuffle(edges)
-    settle = rng.randint(10000, 25000) if rng.random() < settle_prob else None
+    settle = rng.choice([rng.randint(10000, 25000), rng.randint(10000, 25000), 0]) if rng.random() < settle_prob else None
     qs = []
     for k, (u, v) in enumerate(edges):
         if rng.random() < 0.5:
@@ -177,6 +177,8 @@ def valid_market(rng, nmin=2, nmax=12, dual_quotes=0.0, settle_prob=0.5):
             nv = rng.randint(1, 2)
             vs = [("q%d_%d" % (k, j) if rng.random() < 0.8 else "shared", rng.uniform(-2, 2)) for j in range(nv)]
             vs = list({nm: (nm, d) for nm, d in vs}.values())
+            if rng.random() < 0.15:
+                vs = []                      # a dual-valued quote WITHOUT variables is still a dual quote: it names no variable
             if rng.random() < 0.5:
                 x = ("d", x, vs)
             else:
@@ -232,7 +234,10 @@ def malformed_market(rng):
     elif kind == "mixed settlement":
         i = rng.randrange(len(qs))
         q = qs[i]
-        qs[i] = (q[0], q[1], q[2], (st + 1) if st is not None and rng.random() < 0.6 else (None if st is not None else 12345))
+        # one quote on another date, or with / without a date where the others have none / one - including THE EPOCH itself
+        # (1970-01-01, day 0: the default datetime) against no date
+        qs[i] = (q[0], q[1], q[2], (st + 1) if st is not None and rng.random() < 0.6 else
+                 (None if st is not None else rng.choice([12345, 0, 0, 1, 25000])))
     elif kind == "bad currency code length":
         i = rng.randrange(len(qs))
         q = qs[i]
